@@ -572,7 +572,7 @@ class MsgOfParser:
 CASES_2411 = sorted({(c[1], c[2]) for c in ALL_CASES if c[0] == "2411" and not _in_reach(*c[:3])})
 
 
-@harness(("C05", "C01"), cases=CASES_2411, quick=lambda verb, n: n < 23, budget_s=1500, heavy=lambda *a: True,
+@harness(("C05", "C01"), cases=CASES_2411, quick=lambda verb, n: n < 23, budget_s=3600, heavy=lambda *a: True,
          subst={H.hex_to_temp: hex_to_temp_by_contract, H.hex_to_percent: hex_to_percent_by_contract})
 def fan_param_parser_contract(verb, n):
     """parser_2411 itself (its four values go through one codec: paths^4 when inlined), on EVERY payload of the schema
